@@ -37,10 +37,11 @@ const (
 
 // Switch is one scheduling decision that differs from "keep running".
 type Switch struct {
-	Step   uint64 `json:"s"`           // global yield index at which the decision was taken
-	From   int32  `json:"f"`           // task that was running
-	Site   int32  `json:"at"`          // yield site (-1: task finished, -2: blocked on a shimmed lock)
-	To     int32  `json:"to"`          // task that runs next
+	Step   uint64 `json:"s"`  // global yield index at which the decision was taken (informational)
+	TS     uint64 `json:"ts"` // index of this yield among the yields of task From: what replay matches on
+	From   int32  `json:"f"`  // task that was running
+	Site   int32  `json:"at"` // yield site (-1: task finished, -2: blocked on a shimmed lock)
+	To     int32  `json:"to"` // task that runs next
 	Finish bool   `json:"fin,omitempty"`
 }
 
@@ -92,6 +93,7 @@ var (
 	digest   uint64
 	sch      Schedule
 	schPos   int
+	schCur   [MaxTasks]int
 	rng      uint64
 	switches [maxSwitches]Switch
 	nsw      int
@@ -206,7 +208,6 @@ func Yield(site int) {
 	if t < 0 {
 		return
 	}
-	tasks[t].steps++
 	blockRun = 0
 	if gcPos < len(sch.GCSteps) && sch.GCSteps[gcPos] <= step {
 		for gcPos < len(sch.GCSteps) && sch.GCSteps[gcPos] <= step {
@@ -225,9 +226,11 @@ func Yield(site int) {
 	}
 	nx := decide(step, t, int32(site), false)
 	if nx == t {
+		tasks[t].steps++
 		return
 	}
 	switchTo(step, t, nx, int32(site), false)
+	tasks[t].steps++
 }
 
 // Block is called by the shims when the running task cannot proceed (a
@@ -310,14 +313,38 @@ func nthRunnable(except int, n int) int {
 func decide(step uint64, t int, site int32, finish bool) int {
 	switch sch.Kind {
 	case StratExplicit:
-		for schPos < len(sch.Switches) && sch.Switches[schPos].Step < step {
-			schPos++
+		// entries are matched on (task, task-local yield index), so that
+		// dropping other tasks or operations while minimising does not move
+		// the preemption points of the tasks that remain
+		ts := tasks[t].steps
+		i := schCur[t]
+		for i < len(sch.Switches) {
+			en := &sch.Switches[i]
+			if int(en.From) != t {
+				i++
+				continue
+			}
+			if en.Finish {
+				if finish {
+					break
+				}
+				break // a future entry: wait
+			}
+			if finish || en.TS < ts {
+				i++ // stale
+				continue
+			}
+			break
 		}
-		if schPos < len(sch.Switches) && sch.Switches[schPos].Step == step && sch.Switches[schPos].Finish == finish {
-			to := int(sch.Switches[schPos].To)
-			schPos++
-			if runnable(to) && to != t {
-				return to
+		schCur[t] = i
+		if i < len(sch.Switches) {
+			en := &sch.Switches[i]
+			if int(en.From) == t && en.Finish == finish && (finish || en.TS == ts) {
+				schCur[t] = i + 1
+				to := int(en.To)
+				if runnable(to) && to != t {
+					return to
+				}
 			}
 		}
 		if finish {
@@ -379,7 +406,11 @@ func decide(step uint64, t int, site int32, finish bool) int {
 //go:norace
 func record(step uint64, from int, site int32, to int, finish bool) {
 	if nsw < maxSwitches {
-		switches[nsw] = Switch{Step: step, From: int32(from), Site: site, To: int32(to), Finish: finish}
+		var ts uint64
+		if from >= 0 {
+			ts = tasks[from].steps
+		}
+		switches[nsw] = Switch{Step: step, TS: ts, From: int32(from), Site: site, To: int32(to), Finish: finish}
 		resume := int32(-1)
 		if to >= 0 {
 			resume = tasks[to].parkedSite
@@ -443,7 +474,9 @@ func Run(fns []func(), s Schedule, maxYields uint64) Result {
 	}
 	sch = s
 	schPos, gcPos, gcCount, nsw = 0, 0, 0, 0
+	schCur = [MaxTasks]int{}
 	rng = s.Seed ^ 0x6a09e667f3bcc909
+	FaultSeed(s.Seed)
 	gstep, digest = 0, 0
 	mapDigest, mapServed, mapReord = 0, 0, 0
 	maxSteps = maxYields
@@ -545,3 +578,60 @@ func MapCounters() (uint64, uint64, uint64) { return mapServed, mapReord, mapDig
 
 //go:norace
 func ResetMapCounters() { mapServed, mapReord, mapDigest = 0, 0, 0 }
+
+// ---------------------------------------------------------------------------
+// Fault/randomness stream for the shims (sync.Pool drops, math/rand, clock
+// jumps). It is derived from the schedule seed, so a run replays exactly.
+// ---------------------------------------------------------------------------
+
+var (
+	frng       uint64 = 0x51ed270b2f6a9c31
+	clockBase  uint64 = 1_700_000_000_000_000_000 // ns
+	clockSkew  uint64
+	PoolDrops  uint64
+	PoolGets   uint64
+	PoolPuts   uint64
+	RandDraws  uint64
+	ClockReads uint64
+)
+
+// FaultSeed re-seeds the shim stream (called by the harness per run).
+//
+//go:norace
+func FaultSeed(s uint64) { frng = s ^ 0x51ed270b2f6a9c31; clockSkew = 0 }
+
+// Rand64 draws from the shim stream.
+//
+//go:norace
+func Rand64() uint64 { RandDraws++; return splitmix(&frng) }
+
+// Chance reports true with probability 1/den.
+//
+//go:norace
+func Chance(den uint64) bool { return splitmix(&frng)%den == 0 }
+
+// NowNanos is the simulated clock: it advances with every yield executed and
+// may jump (fault) by up to an hour.
+//
+//go:norace
+func NowNanos() int64 {
+	ClockReads++
+	if splitmix(&frng)%64 == 0 {
+		clockSkew += splitmix(&frng) % 3_600_000_000_000
+	}
+	return int64(clockBase + clockSkew + (gstep+SoloSteps)*1000)
+}
+
+// Advance moves the simulated clock (time.Sleep shim).
+//
+//go:norace
+func Advance(ns int64) {
+	if ns > 0 {
+		clockSkew += uint64(ns)
+	}
+}
+
+//go:norace
+func ShimCounters() (poolGets, poolDrops, randDraws, clockReads uint64) {
+	return PoolGets, PoolDrops, RandDraws, ClockReads
+}
